@@ -38,6 +38,15 @@ def crash_site(tb):
 
 def guarded(fn, timeout=10):
     """run fn() capturing stderr, exceptions, SystemExit, timeouts"""
+    try:
+        return _guarded(fn, timeout)
+    except Timeout:
+        # the alarm went off while another outcome was being recorded (formatting a traceback on a loaded machine):
+        # that is a time-out as well; _guarded has restored stderr and the signal handler in its finally clause
+        signal.alarm(0)
+        return {'outcome': 'timeout', 'value': None, 'site': None, 'exc': None, 'stderr': ''}
+
+def _guarded(fn, timeout=10):
     old_err = sys.stderr
     sys.stderr = io.StringIO()
     old_handler = signal.signal(signal.SIGALRM, _alarm)
